@@ -15,6 +15,15 @@ def step (s : St) : List String → St × List String
       | some minb, some maxb, some spl, some rb, some des, some r0 =>
           ({ cfg := { minb := minb, maxb := maxb, spl := spl, RB := rb, desired := des }, R := r0 }, [])
       | _, _, _, _, _, _ => (s, ["bad-op cfg"])
+  | ["cfgr", a, b, c, d, e, f, g, h] =>
+      -- from the configuration: min rate, max rate (bit/s), sample rate, block sizes, reservoir bits, desired fill, initial reservoir
+      match a.toInt?, b.toInt?, c.toInt?, d.toInt?, e.toInt?, f.toInt?, g.toInt?, h.toInt? with
+      | some mn, some mx, some rate, some bs0, some bs1, some rb, some des, some r0 =>
+          if rate ≤ 0 ∨ bs0 ≤ 0 then (s, ["bad-op cfgr"])
+          else
+            let cf := Cfg.ofRates mn mx rate bs0 bs1 rb des
+            ({ cfg := cf, R := r0 }, [s!"cfgr minb={cf.minb} maxb={cf.maxb} spl={cf.spl}"])
+      | _, _, _, _, _, _, _, _ => (s, ["bad-op cfgr"])
   | "blk" :: w :: c0 :: blobs =>
       match w.toNat?, c0.toNat?, blobs.mapM String.toNat? with
       | some W, some c, some bl =>
